@@ -105,7 +105,8 @@ void h_pnum_scan(void) {
   if (g_mf_kind == 1) {
     VASSERT(M <= 16777216, "single precision only when the mantissa is exactly representable");
     VASSERT(!flt_overflows((double)M, E), "single precision only when the value fits a float: a literal between FLT_MAX and 1e45 must not become infinity");
-    VASSERT(E >= -38 - 7, "single precision only when the value is not below the float range");
+    /* below FLT_MIN a float is subnormal: the value M x 10^E must stay >= 1e-38 to keep 1e-6 relative accuracy */
+    if (E < -38) { uint64_t p = 1; for (int j = 0; j < 8; j++) if (j < -38 - E) p *= 10; VASSERT(-38 - E <= 7 && M >= p, "single precision only when the value is not below the float range (no subnormal results)"); }
     VASSERT(k == 1, "float kind reported"); VWITNESS("float");
   } else { VASSERT(k == 4, "double kind reported"); VWITNESS("double"); }
   uint64_t want = g_mf_kind == 1 ? vbits64((double)(neg ? -vin_unbits32((uint32_t)g_mf_ret) : vin_unbits32((uint32_t)g_mf_ret))) : (g_mf_ret ^ ((uint64_t)neg << 63));
